@@ -5,6 +5,7 @@ from sa.rules import backend as B
 from sa.rules import cpp_rules as C
 from sa.rules import pipeline as P
 from sa.rules import ranges as RG
+from sa.rules import window_rules as WN
 
 
 def main(tier):
@@ -25,7 +26,8 @@ def main(tier):
             "arithmetic, the gate's 64-bit fit predicates and the leaf ranges of UInt/Int/Bcd equal the language-level "
             "ranges of those types for every width (R-INTRANGE), and the intermediate type covers result and operands "
             "(R-INTERMEDIATE). "
-            "Not decided: absence of out-of-bounds access for all buffers and dynamic offsets; alignment claims."))
+            "The static (alignment, offset) claimed for a sub-buffer depends on the parent's and on the relative alignment and offset (R-SUBALIGN, dependency of each template argument). "
+            "Not decided: absence of out-of-bounds access for all buffers and dynamic offsets; correctness of the alignment arithmetic itself."))
     chk.run("R-NOABORT", C.noabort, cx.cpp, cx.templates, floor=12, control=lambda: cx.cpp_control)
     chk.run("R-SIBLING", C.sibling, cx.cpp, floor=80, control=lambda: cx.cpp_control)
     chk.run("R-ACCESSOR", B.accessor, cx.repo, floor=5)
@@ -34,4 +36,5 @@ def main(tier):
     chk.run("R-GATE", P.gate, cx.repo, cx.schema, cx.sites, floor=4)
     chk.run("R-INTRANGE", RG.intrange, cx.repo, floor=190)
     chk.run("R-INTERMEDIATE", RG.intermediate, cx.repo, floor=2)
+    chk.run("R-SUBALIGN", WN.subalign, cx.cpp, floor=2)
     return chk.finish()
